@@ -3,7 +3,7 @@ from props_common import *
 PROP = dict(
     title="Calls and returns preserve the caller's frame",
     family="frames", harness="frames", run_vo="Run/Frames.vo",
-    theorems=["C34_call_return", "C34_ret_restores", "C34_callee_init", "C34_frame_written", "C34_frame_size",
+    theorems=["C34_roundtrip", "C34_stack_unchanged", "C34_depth", "C34_ret_restores", "C34_callee_init", "C34_frame_written", "C34_frame_size",
               "C34_callee_owned_after_code", "C34_heap_readable", "C34_callee_heap_owned_by_caller"],
     open_statements=[
         "NOT proved: that the Rust prepare_call / return_from_context compute exactly call_regs / ret_regs / frame_bytes of Vm/FrameModel.v, and that no "
@@ -27,7 +27,7 @@ PROP = dict(
     ],
     assumptions=[
         "Inv s0 (layout invariant, see C24); satisfiable: Example ex_state_inv; a complete call / nested call / RETD / RET run is exhibited by Example ex_call_return",
-        "C34_call_return: the callee's execution is any operation list run while the depth stays above the caller's (run_above) and ending at the caller's depth",
+        "C34_roundtrip: the callee's execution is any operation list run while the depth stays above the caller's (run_above) and ending at the caller's depth",
         "C34_frame_size: contract id and asset id are 32 bytes",
     ],
     rule=("call trees on the real interpreter under vmtrace's single-step tracer: chains of up to 4 contracts plus self-recursion through Call.a (depth 1..30), "
